@@ -184,7 +184,10 @@ fn expect(got: &BigNum, want: &RefInt, sig: &str, ctxt: &dyn Fn() -> String, dis
     ensure!(got.is_pos() == !want.is_neg(), sig, "{}: is_pos()={} for value {}", ctxt(), got.is_pos(), want.to_dec());
     ensure!(got.is_zero() == want.is_zero(), sig, "{}: is_zero()={} for value {}", ctxt(), got.is_zero(), want.to_dec());
     let (_, limbs) = want.to_limbs();
-    ensure!(got.to_int() == limbs[0], sig, "{}: to_int()={} want low limb {}", ctxt(), got.to_int(), limbs[0]);
+    if limbs.len() == 1 {
+        // to_int is documented only for values below 2^32
+        ensure!(got.to_int() == limbs[0], sig, "{}: to_int()={} want {}", ctxt(), got.to_int(), limbs[0]);
+    }
     if limbs.len() <= display_limit {
         let s = format!("{}", got);
         ensure!(s == want.to_dec(), sig, "{}: prints {} want {}", ctxt(), s, want.to_dec());
